@@ -163,6 +163,11 @@ class C05(Check):
             r = progrun.run_cli(self.drv, sc, src, args, name="cliq.bloch")
             if r.proc.timeout:
                 return None
+            if (not r.proc.crashed()) and r.rc == 1 and "requires two distinct qubits" in " ".join(r.stderr_lines[-2:]) and \
+                    any(s[0] == "cxalias" for s in _walk(p["main"])):
+                # the CLI draws its own measurement outcomes: this run took a branch in which the program applies cx to one
+                # qubit twice, which is refused with a diagnostic (allowed, see run_case); nothing to compare
+                continue
             if r.proc.crashed() or r.rc != 0:
                 return {"why": f"CLI run failed: {r.stderr_lines[-2:]}", "source": src, **r.proc.brief()}
             try:
